@@ -105,9 +105,11 @@ TEXT["C05"] = {
     "technique": "Lean 4 theorems over a model of getConsumerStatus + goswarm (key round trip/injectivity, freshness invariant over all request histories) + differential correspondence; partial on scheduling",
     "text": ("Proof (partial on the concurrent clause): Props/C05.lean proves that the cache key splits back into exactly the cluster and group it was built from for all names incl. spaces "
              "(parse_mkKey, key_injective: no cross-talk), every request gets one reply naming its own cluster and group, for every time-ordered request history and every storage evolution "
-             "a reply equals the evaluation of storage for the request's own group at an instant within the cache lifetime when the lifetime is positive (freshness; NOTFOUND iff no live data then), "
-             "and serving a filtered view leaves the cache as a full-view request would (filtered_view_pure). expire_zero_witness is the known finding D16 (lifetime 0 = cached forever), reported "
-             "as KNOWN-FINDING. The key-collision defect D5 was found by the check and repaired in /repo. Tie: real CachingEvaluator + goswarm on real storage vs the compiled model."),
+             "a reply equals the evaluation of storage for the request's own group at an instant within the cache lifetime, for EVERY lifetime >= 0 (freshness; NOTFOUND iff no live data then; lifetime 0 = no caching, zero_lifetime_is_no_caching — full strength "
+             "since the repair of D16: a zero lifetime reached goswarm as 'never expires'), "
+             "and serving a filtered view leaves the cache as a full-view request would (filtered_view_pure). The key-collision defect D5 and D16 were found by the check and repaired in /repo; the "
+             "stream also meets a storage subsystem that is slow to accept the evaluator's fetch, clusters differing only in case, and a directed staleness scenario (full view, problems-only view, "
+             "change, problems-only view again just after one lifetime). Tie: real CachingEvaluator + goswarm on real storage vs the compiled model."),
     "note": ("Trusted: Lean kernel + standard axioms; harness incl. cache-ageing hook; goswarm modelled from source. Not modelled: goroutine-per-request scheduling and liveness (observed only), "
              "evaluation time. The tie is sampled."),
 }
